@@ -106,7 +106,7 @@ def describe_failure(mod, row):
                 payload["model"] = core.dump_fracs(core.parse_dump(txt))
             except Exception:
                 payload["model_text"] = txt[:20000]
-        except core.HarnessError as e:
+        except Exception as e:      # noqa: BLE001 — a replay must be written whatever happens to the diagnostics
             payload["model_error"] = str(e)[-2000:]
     if hasattr(mod, "explain_failure"):
         try:
